@@ -714,10 +714,14 @@ func (s *BgpServer) filterpath(peer *peer, path, old *table.Path) *table.Path {
 	options.Validate = s.roaTable.Validate
 	path = peer.policy.ApplyPolicy(peer.TableID(), table.POLICY_DIRECTION_EXPORT, path, options)
 	// When 'path' is filtered (path == nil), check 'old' has been sent to this peer.
-	// If it has, send withdrawal to the peer.
+	// If it has, send withdrawal to the peer. The record of advertised routes
+	// tells; re-running the export policy on 'old' alone does not ('old' has
+	// not gone through the pre-policy rewriting that 'path' has, and the
+	// policy may have changed since it was sent).
 	if path == nil && old != nil {
-		o := peer.policy.ApplyPolicy(peer.TableID(), table.POLICY_DIRECTION_EXPORT, old, options)
-		if o != nil {
+		if peer.hasPathAlreadyBeenSent(old) {
+			path = old.Clone(true)
+		} else if o := peer.policy.ApplyPolicy(peer.TableID(), table.POLICY_DIRECTION_EXPORT, old, options); o != nil {
 			path = old.Clone(true)
 		}
 	}
